@@ -6,8 +6,9 @@ class VCError(Exception):
     """Construct outside the verified subset / contract refers to something that does not exist (exit 2/3, never a violation)."""
 
 class SV:
-    __slots__ = ("ty", "t", "cls", "lv", "box")
-    def __init__(self, ty, t, cls=None, lv=None, box=None):
+    __slots__ = ("ty", "t", "cls", "lv", "box", "mark")
+    def __init__(self, ty, t, cls=None, lv=None, box=None, mark=None):
+        self.mark = mark   # alias guard: ("ref", source) = a second name for an unboxed container that lives elsewhere; ("param", name, dirty)
         self.ty, self.t, self.cls, self.lv, self.box = ty, t, cls, lv, box   # box: (family, ref) when the value was read out of a shared container cell   # cls: known dynamic class for Obj; lv: lvalue path for write-back
     def __repr__(self): return "SV(%s,%s)" % (self.ty, self.t)
 
